@@ -1449,6 +1449,15 @@ class Container:
                                for substance, value in self.contents.items() if not substance.is_enzyme())
 
         required_quantity = quantity - current_quantity
+        # a target below what the container already holds cannot be reached by adding solvent; a shortfall that is
+        # only rounding (absolute: less than the internal precision in the unit the solvent is stored in, or
+        # relative: in the last digits of a float) is not "below"
+        solvent_unit = 'U' if solvent.is_enzyme() else config.moles_storage_unit
+        if (round(Unit.convert(solvent, f"{required_quantity} {quantity_unit}", solvent_unit),
+                  config.internal_precision) < 0
+                and round(required_quantity / quantity, config.internal_precision) < 0):
+            raise ValueError("Container already holds more than the desired quantity.")
+        required_quantity = max(required_quantity, 0.)
         result = self._add(solvent, f"{required_quantity} {quantity_unit}")
         required_volume = Unit.convert(solvent, f"{required_quantity} {quantity_unit}", 'L')
         required_volume, unit = Unit.get_human_readable_unit(required_volume, 'L')
